@@ -211,6 +211,65 @@ fn static_family<'s>(acc: &mut Acc, inputs: &'s [String]) {
     }
 }
 
+
+/// Adjacent small memoized parsers (array / tuple elements, a few bytes apart) over *long* inputs with
+/// many survived failures: a memo key that is not injective in (position, parser) lets a failure
+/// remembered for one parser at one position be replayed for a neighbour at another position.
+fn static_long_pairs<'s>() -> Vec<(&'static str, BS<'s>, BS<'s>)> {
+    let j = |c: char| just::<_, &str, ES>(c);
+    let js = |c: &'static str| just::<_, &str, ES>(c);
+    vec![
+        (
+            "choice([a, b, c, d].map(memoized)).repeated().collect()",
+            choice([j('a').memoized(), j('b').memoized(), j('c').memoized(), j('d').memoized()]).repeated().collect::<String>().boxed(),
+            choice([j('a'), j('b'), j('c'), j('d')]).repeated().collect::<String>().boxed(),
+        ),
+        (
+            "choice((d.memoized(), c.memoized(), b.memoized(), a.memoized())).repeated().collect()",
+            choice((j('d').memoized(), j('c').memoized(), j('b').memoized(), j('a').memoized())).repeated().collect::<String>().boxed(),
+            choice((j('d'), j('c'), j('b'), j('a'))).repeated().collect::<String>().boxed(),
+        ),
+        (
+            "choice([\"ab\", \"ac\", \"ba\", \"cd\", \"dd\"].map(memoized)).or(none_of(\"z\").to_slice().memoized()).repeated()",
+            choice([js("ab").memoized(), js("ac").memoized(), js("ba").memoized(), js("cd").memoized(), js("dd").memoized()]).or(none_of("z").to_slice().memoized()).repeated().collect::<Vec<&str>>().map(render).boxed(),
+            choice([js("ab"), js("ac"), js("ba"), js("cd"), js("dd")]).or(none_of("z").to_slice()).repeated().collect::<Vec<&str>>().map(render).boxed(),
+        ),
+        (
+            "none_of(\"z\").memoized().then(group((a?, b?, c?, d?)) each memoized).repeated()",
+            none_of::<_, &str, ES>("z").memoized().then(group((j('a').memoized().or_not(), j('b').memoized().or_not(), j('c').memoized().or_not(), j('d').memoized().or_not()))).repeated().collect::<Vec<_>>().map(render).boxed(),
+            none_of::<_, &str, ES>("z").then(group((j('a').or_not(), j('b').or_not(), j('c').or_not(), j('d').or_not()))).repeated().collect::<Vec<_>>().map(render).boxed(),
+        ),
+        (
+            "choice([a, b, c].map(memoized)) recover_with(via_parser(any)) separated_by(d.memoized()).allow_trailing()",
+            choice([j('a').memoized(), j('b').memoized(), j('c').memoized()]).recover_with(via_parser(any().map(|c: char| c.to_ascii_uppercase()))).separated_by(j('d').memoized()).allow_trailing().collect::<String>().boxed(),
+            choice([j('a'), j('b'), j('c')]).recover_with(via_parser(any().map(|c: char| c.to_ascii_uppercase()))).separated_by(j('d')).allow_trailing().collect::<String>().boxed(),
+        ),
+    ]
+}
+
+fn static_long_family<'s>(acc: &mut Acc, inputs: &'s [String]) {
+    let pairs = static_long_pairs::<'s>();
+    for (name, m, p) in &pairs {
+        for w in inputs {
+            acc.evaluations += 1;
+            let run = |q: &BS<'s>| {
+                guarded(|| {
+                    let r = q.parse(w.as_str());
+                    (r.has_output(), r.output().cloned(), r.errors().map(|e| format!("{:?}@{}..{}", e.reason(), e.span().start, e.span().end)).collect::<Vec<_>>())
+                })
+            };
+            let (rm, rp) = (run(m), run(p));
+            acc.count("static_long_placement_cases", 1);
+            if matches!(&rp, Ok((true, _, _))) {
+                acc.nontrivial_rand.insert(crate::rng::hash64(format!("staticlong|{}|{}", name, w).as_bytes()));
+            }
+            if rm != rp {
+                acc.viol(Viol { weight: name.len() + w.len(), what: format!("C11: adjacent memoized parsers [{}] on {:?}: memoized {:?} vs plain {:?}", name, w, rm, rp), detail: json!({"placement": name, "input": w, "grammar_text": name}) });
+            }
+        }
+    }
+}
+
 // -----------------------------------------------------------------------------------------------
 // (3) left recursion (child process)
 
@@ -343,6 +402,19 @@ pub fn run(cx: &RunCtx) -> i32 {
     let mut sacc = Acc::default();
     static_family(&mut sacc, &st_inputs);
     acc.merge(sacc);
+    let long_inputs: Vec<String> = {
+        let mut v: Vec<String> = all_inputs(&['a', 'b', 'c', 'd'], cx.t(7, 8)).iter().map(|w| w.iter().collect()).collect();
+        let mut rng = Rng::derive(seed, 0xC11B, 0);
+        for _ in 0..cx.t(4000, 80_000) {
+            v.push(random_input(&mut rng, &['a', 'b', 'c', 'd', 'd', 'é'], 48).iter().collect());
+        }
+        v
+    };
+    const LCH: usize = 1024;
+    let lacc = for_each_index((long_inputs.len() + LCH - 1) / LCH, cx.threads, 1, |acc, ci| {
+        static_long_family(acc, &long_inputs[ci * LCH..((ci + 1) * LCH).min(long_inputs.len())]);
+    });
+    acc.merge(lacc);
 
     // (3)
     let lr_len = cx.t(7, 9);
@@ -385,14 +457,14 @@ pub fn run(cx: &RunCtx) -> i32 {
         cx,
         acc,
         Finish {
-            rule: format!("(1) every grammar with <= {size} nodes over the K02 basis (with validate emitters) x every non-empty subset of its nodes wrapped in memoized() x every input <= {max_len} over {{a,b,é}}: acceptance, output and the complete Rich error list must equal the plain grammar's (real vs real), and each memoized run is also compared with the reference model; {n_rand} random grammars (also recovery and folds) x 4 sampled subsets (incl. the same node memoized twice) x 5 inputs; (2) 8 statically typed placements (zero-sized memoized parsers as alternatives and in sequence, directly nested, first-field, adjacent, cloned, in repetitions) x all inputs <= {} over {{a,b}} against their plain formulation; (3) 8 left-recursive shapes (memoized at the recursive step, around the whole body, at the reference, through with_ctx / ignore_with_ctx / then_with_ctx boundaries, mutual, doubly recursive) x all inputs <= {lr_len} over {{x,+,y}} in a child process with a 10^7 logical-step budget per parse and an 8 GiB address-space limit: every parse must return a ParseResult. Non-trivial: the reference evaluation backtracked / the plain static formulation accepts / the left-recursive parse returned", cx.t(4, 6)),
+            rule: format!("(1) every grammar with <= {size} nodes over the K02 basis (with validate emitters) x every non-empty subset of its nodes wrapped in memoized() x every input <= {max_len} over {{a,b,é}}: acceptance, output and the complete Rich error list must equal the plain grammar's (real vs real), and each memoized run is also compared with the reference model; {n_rand} random grammars (also recovery and folds) x 4 sampled subsets (incl. the same node memoized twice) x 5 inputs; (2) 8 statically typed placements (zero-sized memoized parsers as alternatives and in sequence, directly nested, first-field, adjacent, cloned, in repetitions) x all inputs <= {} over {{a,b}} against their plain formulation, and 5 placements of adjacent small memoized parsers (array and tuple elements of choice / group, a few bytes apart, with recovery and separators) x all inputs <= {} over {{a,b,c,d}} + random inputs <= 48 tokens ({} inputs; many survived failures per parse); (3) 8 left-recursive shapes (memoized at the recursive step, around the whole body, at the reference, through with_ctx / ignore_with_ctx / then_with_ctx boundaries, mutual, doubly recursive) x all inputs <= {lr_len} over {{x,+,y}} in a child process with a 10^7 logical-step budget per parse and an 8 GiB address-space limit: every parse must return a ParseResult. Non-trivial: the reference evaluation backtracked / the plain static formulation accepts / the left-recursive parse returned", cx.t(4, 6), cx.t(7, 8), long_inputs.len()),
             exhaustive: false,
             exhaustive_note: format!("grammars <= {size} nodes x all memoized() subsets x inputs <= {max_len}: complete"),
             assumptions: vec![
                 "for left-recursive grammars only termination is judged (the statement does not say which inputs they accept); outputs are recorded in the evidence samples".into(),
                 "the boxed builder gives every node its own allocation, so memo-key collisions by address (known finding D6) are only reachable through the statically typed placements".into(),
             ],
-            require: vec![("differential_comparisons".into(), 100_000), ("error_lists_compared".into(), 10_000), ("static_placement_cases".into(), 100), ("left_recursive_parses_returned".into(), 1000), ("left_recursive_parses_accepted".into(), 10)],
+            require: vec![("differential_comparisons".into(), 100_000), ("error_lists_compared".into(), 10_000), ("static_placement_cases".into(), 100), ("static_long_placement_cases".into(), 10_000), ("left_recursive_parses_returned".into(), 1000), ("left_recursive_parses_accepted".into(), 10)],
             min_evaluations: 10_000,
         },
     )
